@@ -1,5 +1,4 @@
-import SciVerif.Drive.Util
+import SciVerif.Drive.C17
 open Lean SciVerif.Drive
 
-/-- C17 model driver: not built yet. -/
-def main : IO Unit := serve (fun _ => throw "C17: no model yet")
+def main : IO Unit := serve SciVerif.C17.Drive.handle
